@@ -15,7 +15,10 @@ What is proved here, for *every* `Codecs V P` (value model) and every table pass
 * `props_roundtrip_counterexample` – the unguarded statement fails (`image_ref` alone is lost);
 * `set_get`, `set_frame`, `unset_get`, `unset_identity_rejected`, `unset_frame`, `unset_table_ok_partial`,
   `unset_counterexample` – model elements.
-The tree theorems (`dict_roundtrip`) are in the second half of the file.
+* `dict_roundtrip_partial` – deep dictionary / JSON round trip by structural induction over the sliver tree;
+* `image_join_split`, `image_type_comma_counterexample` – the `ImageRef` text format;
+* `graph_roundtrip_leaf_partial` – model-graph round trip of a childless sliver (trees with children through the graph:
+  differential only).
 -/
 namespace FimVerif.C02
 open FimVerif.Sliver FimVerif.Gen.SliverMap
@@ -388,5 +391,53 @@ corpus/C02/known_image_type_comma.json) -/
 theorem image_type_comma_counterexample :
     concrete.dec Dec.commaRSplit "1" (concrete.enc Enc.commaJoin [Val.str "img", Val.str "qcow2,raw"]) = .ok (some (Val.str "raw")) := by
   decide
+
+/-! ### model-graph path -/
+
+section
+variable {V P : Type} [DecidableEq V]
+
+theorem neighbors_no_edges (nodes : List (GNode P)) (id rel cls : String) :
+    neighbors (⟨nodes, []⟩ : AGraph P) id rel cls = [] := by
+  simp [neighbors]
+
+theorem foldl_fixed {α β : Type} (F : Except Err α → β → Except Err α) (h : ∀ sc acc, F (.ok acc) sc = .ok acc)
+    (slots : List β) (acc : α) : slots.foldl F (.ok acc) = .ok acc := by
+  induction slots with
+  | nil => rfl
+  | cons sc rest ih => rw [List.foldl_cons, h]; exact ih
+
+/--
+**Graph round trip of a childless sliver** of any kind but `component` (which needs a parent): written into an empty
+model graph with `add_*_sliver` and rebuilt with `build_deep_*_sliver`, it comes back with its node id and every
+rebuilt property.  (Trees with children through the graph are covered by the differential run only.)
+-/
+theorem graph_roundtrip_leaf_partial (C : Codecs V P) (k : Kind) (id : String) (f : Fields V)
+    (hk : k ≠ "component")
+    (hT : tableOK (tableOf k) = true) (hlaw : FieldLaw C (tableOf k) f) (hfate : FateShared (tableOf k) f)
+    (hreq : Required (tableOf k) f) :
+    graphRoundtrip (P := P) C (.mk k (some id) f []) = .ok (.mk k (some id) (restrict (tableOf k) f) []) := by
+  have hp := props_roundtrip_partial C (tableOf k) f hT hlaw hfate hreq
+  unfold graphRoundtrip
+  simp only [Sliver.kind, hk, if_false, addSliver, addNode, AGraph.empty, List.any_nil, Bool.false_eq_true, addKids,
+    List.nil_append, Sliver.nodeId, Option.getD_some, List.length_cons, List.length_nil]
+  simp only [buildDeep, findNode, List.filter_cons, beq_self_eq_true, if_true, List.filter_nil, bne_self_eq_false,
+    Bool.false_and, hp]
+  by_cases hi : (k == "interface") = true
+  · simp only [hi, if_true]
+    by_cases hd : ((restrict (tableOf k) f) "type").any C.isDedicated = true
+    · simp [hd, neighbors_no_edges, dedupe, pure, Except.pure]
+    · simp [hd]
+  · simp only [hi]
+    rw [foldl_fixed _ (by intro sc acc; simp [neighbors_no_edges, pure, Except.pure])]
+    simp [dedupe]
+
+end
+
+/-- non-vacuity: the hypotheses hold for a link-free leaf, e.g. the interface `p1` of the examples above -/
+example : graphRoundtrip (P := String) concrete (exIface "p1") =
+    .ok (.mk "interface" (some "id-p1") (restrict (tableOf "interface") (exIface "p1").fields) []) :=
+  graph_roundtrip_leaf_partial concrete "interface" "id-p1" _ (by decide) (by decide)
+    (fieldLawB_sound _ _ _ (by decide)) (fateSharedB_sound _ _ (by decide)) (requiredB_sound _ _ (by decide))
 
 end FimVerif.C02
